@@ -59,6 +59,22 @@ def function_placements():
         # lambda with defaults in a function
         if "**" not in params:
             out.append((f"sig{si}:lambda-local", f"def outer(A):\n    B = 20\n    return lambda {params}: {ret}\nF = outer(10)\n{show}\n"))
+    # which `return` a call executes: guard clauses with a bare return, returns inside loops and branches, falling off the end
+    RET = {
+        "guard-bare": "def f(x):\n    if not x:\n        return\n    return x * 2\n",
+        "bare-in-loop": "def f(x):\n    for i in range(3):\n        if i == x:\n            return\n    return 'end'\n",
+        "bare-in-while": "def f(x):\n    n = 0\n    while n < 3:\n        n += 1\n        if n == x:\n            return\n    return n\n",
+        "valued-then-fall": "def f(x):\n    if x:\n        return x\n    x = 'fell'\n",
+        "nested-branches": "def f(x):\n    if x > 1:\n        if x > 2:\n            return 'big'\n        else:\n            return\n    elif x == 1:\n        return 1\n    return 'small'\n",
+        "return-none-explicit": "def f(x):\n    if x:\n        return None\n    return 0\n",
+        "only-bare": "def f(x):\n    if x:\n        return\n    return\n",
+        "return-in-else-of-loop": "def f(x):\n    for i in range(x):\n        pass\n    else:\n        return ('else', x)\n    return 'never'\n",
+    }
+    for k, body in RET.items():
+        calls = "print([f(v) for v in (0, 1, 2, 3)])\n"
+        out.append((f"ret:{k}:module", body + calls))
+        out.append((f"ret:{k}:method", "class K:\n" + _ind(body.replace("def f(x)", "def f(self, x)")) + "\nprint([K().f(v) for v in (0, 1, 2, 3)])\n"))
+        out.append((f"ret:{k}:nested", "def outer():\n" + _ind(body) + "\n    return f\nf = outer()\n" + calls))
     # decorators naming locals / parameters / members
     deco = "def deco(tag):\n    def w(fn):\n        def g(*a, **k):\n            return (tag, fn(*a, **k))\n        return g\n    return w\n"
     out.append(("deco:local", deco + "def outer():\n    t = 'loc'\n    mk = deco\n    @mk(t)\n    @mk(t + '2')\n    def f(x=t):\n        return x\n    t = 'late'\n    return f\nprint(outer()())\n"))
